@@ -73,12 +73,20 @@ func Format(g *G, n int) []Program {
 			e := int64(g.R.Intn(61) - 30)
 			if g.R.Intn(8) == 0 {
 				e = g.Exp()
-				if e >= 2147483600 {
-					e = 2147483600 // keep clear of the exponent carry at the very top (DESIGN: limits)
-				}
 				bigExp = e > 2000 || e < -2000
 			}
 			g.Load("r0", g.Bool(), d, e, 0, mode)
+		}
+		// a rounding carry out of the leading digit at the very top (and bottom) of the exponent range: the printed
+		// exponent is one more than the largest a Decimal can hold
+		if g.R.Intn(12) == 0 {
+			mode = g.Mode()
+			k := 1 + g.R.Intn(6)
+			d := strings.Repeat("9", k) + g.PickS("", "5", "4", "96", "49")
+			g.Load("r0", g.Bool(), d, g.PickI64(2147483647, 2147483647, 2147483646, -2147483648), 0, mode)
+			ref = ""
+			bigExp = true
+			g.Emit(M{"op": "Text", "x": "r0", "fmt": g.PickS("e", "E", "g", "G"), "prec": g.R.Intn(k + 2), "pre": ""})
 		}
 		// %f with the rounding position exactly at, or above, the leading digit: 0 or one unit, decided by
 		// the mode and by the comparison with one half (leading digits 5000...0 followed, far away, by something)
@@ -378,7 +386,7 @@ func Parse(g *G, n int) []Program {
 			big = false
 		case k < 44: // binary exponents, also unrepresentable ones
 			s = g.PickS("1", "0x1", "0x.8", "3", "0b101", "0o17", "0x1.8", "7.5") + g.PickS("p", "P") + g.PickS("0", "1", "-1", "10", "-10", "64", "-64", "63", "65", "-63", "100", "-200", "1000", "-1074",
-				"99999999999", "-99999999999", "2147483648", "20000", "-20000")
+				"99999999999", "-99999999999", "2147483648", "20000", "-20000", "65536", "100000", "-250000", "299999", "-300000", "300001")
 			base = 0
 			big = !strings.Contains(s, "9999") && !strings.Contains(s, "21474")
 		case k < 50:
